@@ -325,6 +325,199 @@ fn construct(sel: Sel, force: bool, cpu: Cpu, key: Option<Key>, ckpt: Option<[u8
     }
 }
 
+
+/// recording `Hasher`: captures the exact sequence of `write` calls a value's `Hash` impl makes
+/// (only `write`/`finish` are defined, so every provided method takes core's default route)
+pub struct Rec {
+    pub buf: [u8; 2048],
+    pub len: usize,
+    pub cuts: [usize; 24],
+    pub ncuts: usize,
+    pub overflow: bool,
+}
+impl Rec {
+    pub fn new() -> Self {
+        Rec { buf: [0; 2048], len: 0, cuts: [0; 24], ncuts: 0, overflow: false }
+    }
+}
+impl CoreHasher for Rec {
+    fn write(&mut self, b: &[u8]) {
+        if self.len + b.len() > self.buf.len() || self.ncuts >= self.cuts.len() {
+            self.overflow = true;
+            return;
+        }
+        self.buf[self.len..self.len + b.len()].copy_from_slice(b);
+        self.len += b.len();
+        self.cuts[self.ncuts] = self.len;
+        self.ncuts += 1;
+    }
+    fn finish(&self) -> u64 {
+        0
+    }
+}
+
+pub trait ValVisitor {
+    fn visit<T: core::hash::Hash + ?Sized>(&mut self, v: &T);
+}
+
+fn split_colon<'a>(s: &'a [u8], parts: &mut [&'a [u8]; 4]) -> usize {
+    let mut n = 0;
+    for t in s.split(|&c| c == b':') {
+        if n < 4 {
+            parts[n] = t;
+            n += 1;
+        } else {
+            return 99;
+        }
+    }
+    n
+}
+
+/// parse a value token (`u32:beef`, `str:6869`, `bytes:-`, `pib:u16:7:0102`, `ou64:none`, ...) and show it to
+/// the visitor as the corresponding Rust value; false = malformed
+pub fn with_val<V: ValVisitor>(tok: &[u8], scratch: &mut [u8], vis: &mut V) -> bool {
+    let mut parts: [&[u8]; 4] = [b""; 4];
+    let n = split_colon(tok, &mut parts);
+    if n == 0 || n == 99 {
+        return false;
+    }
+    let half = scratch.len() / 2;
+    let (s1, s2) = scratch.split_at_mut(half);
+    macro_rules! int_kind {
+        ($kind:expr, $hex:expr, $then:ident) => {{
+            let Some(x) = parse_u128_hex($hex) else { return false };
+            match $kind {
+                b"u8" => $then!(x as u8),
+                b"u16" => $then!(x as u16),
+                b"u32" => $then!(x as u32),
+                b"u64" => $then!(x as u64),
+                b"u128" => $then!(x),
+                b"usize" => $then!(x as usize),
+                b"i8" => $then!(x as u8 as i8),
+                b"i16" => $then!(x as u16 as i16),
+                b"i32" => $then!(x as u32 as i32),
+                b"i64" => $then!(x as u64 as i64),
+                b"i128" => $then!(x as i128),
+                b"isize" => $then!(x as usize as isize),
+                _ => return false,
+            }
+        }};
+    }
+    match (parts[0], n) {
+        (b"unit", 1) => vis.visit(&()),
+        (b"bool", 2) => match parts[1] {
+            b"0" => vis.visit(&false),
+            b"1" => vis.visit(&true),
+            _ => return false,
+        },
+        (b"char", 2) => {
+            let Some(x) = parse_u128_hex(parts[1]) else { return false };
+            let Some(c) = char::from_u32(x as u32) else { return false };
+            vis.visit(&c)
+        }
+        (b"bytes", 2) => {
+            let Some(l) = unhex(parts[1], s1) else { return false };
+            vis.visit::<[u8]>(&s1[..l])
+        }
+        (b"str", 2) => {
+            let Some(l) = unhex(parts[1], s1) else { return false };
+            let Ok(st) = core::str::from_utf8(&s1[..l]) else { return false };
+            vis.visit::<str>(st)
+        }
+        (b"u32s", 2) => {
+            let Some(l) = unhex(parts[1], s1) else { return false };
+            if l % 4 != 0 || l / 4 > 64 {
+                return false;
+            }
+            let mut arr = [0u32; 64];
+            for i in 0..l / 4 {
+                arr[i] = u32::from_le_bytes([s1[4 * i], s1[4 * i + 1], s1[4 * i + 2], s1[4 * i + 3]]);
+            }
+            vis.visit::<[u32]>(&arr[..l / 4])
+        }
+        (b"pss", 3) => {
+            let Some(l1) = unhex(parts[1], s1) else { return false };
+            let Some(l2) = unhex(parts[2], s2) else { return false };
+            let (Ok(a), Ok(b)) = (core::str::from_utf8(&s1[..l1]), core::str::from_utf8(&s2[..l2])) else { return false };
+            vis.visit(&(a, b))
+        }
+        (b"pib", 4) => {
+            let Some(l) = unhex(parts[3], s1) else { return false };
+            let bytes: &[u8] = &s1[..l];
+            macro_rules! pair {
+                ($v:expr) => {
+                    vis.visit(&($v, bytes))
+                };
+            }
+            int_kind!(parts[1], parts[2], pair)
+        }
+        (b"ou64", 2) => {
+            if parts[1] == b"none" {
+                vis.visit(&None::<u64>)
+            } else {
+                let Some(x) = parse_u64_hex(parts[1]) else { return false };
+                vis.visit(&Some(x))
+            }
+        }
+        (b"obytes", 2) => {
+            if parts[1] == b"none" {
+                vis.visit(&None::<&[u8]>)
+            } else {
+                let Some(l) = unhex(parts[1], s1) else { return false };
+                vis.visit(&Some(&s1[..l]))
+            }
+        }
+        (k, 2) => {
+            macro_rules! single {
+                ($v:expr) => {
+                    vis.visit(&$v)
+                };
+            }
+            int_kind!(k, parts[1], single)
+        }
+        _ => return false,
+    }
+    true
+}
+
+struct HashOneVis {
+    builder: HighwayBuildHasher,
+    out: u64,
+}
+impl ValVisitor for HashOneVis {
+    fn visit<T: core::hash::Hash + ?Sized>(&mut self, v: &T) {
+        self.out = self.builder.hash_one(v);
+    }
+}
+struct RecVis {
+    rec: Rec,
+}
+impl ValVisitor for RecVis {
+    fn visit<T: core::hash::Hash + ?Sized>(&mut self, v: &T) {
+        v.hash(&mut self.rec);
+    }
+}
+struct IntoVis<'a> {
+    h: &'a mut AnyHasher,
+    unsupported: bool,
+}
+impl<'a> ValVisitor for IntoVis<'a> {
+    fn visit<T: core::hash::Hash + ?Sized>(&mut self, v: &T) {
+        match self.h {
+            AnyHasher::Portable(x) => v.hash(x),
+            AnyHasher::Auto(x) => v.hash(x),
+            #[cfg(target_arch = "x86_64")]
+            AnyHasher::Sse(x) => v.hash(x),
+            #[cfg(target_arch = "x86_64")]
+            AnyHasher::Avx(x) => v.hash(x),
+            #[cfg(target_arch = "aarch64")]
+            AnyHasher::Neon(_) => self.unsupported = true,
+            #[cfg(all(target_family = "wasm", target_feature = "simd128"))]
+            AnyHasher::Wasm(x) => v.hash(x),
+        }
+    }
+}
+
 pub struct Machine {
     pub hs: [Option<AnyHasher>; NH],
     pub cpu: Cpu,
@@ -571,6 +764,133 @@ impl Machine {
                         out.s("unsupported");
                     }
                 }
+            }
+            (b"hashone", 6) => {
+                // `HighwayBuildHasher::new(key).hash_one(value)`
+                let (Some(a), Some(b), Some(c), Some(d)) =
+                    (parse_u64_hex(toks[1]), parse_u64_hex(toks[2]), parse_u64_hex(toks[3]), parse_u64_hex(toks[4]))
+                else { bad!() };
+                let mut v = HashOneVis { builder: HighwayBuildHasher::new(Key([a, b, c, d])), out: 0 };
+                if !with_val(toks[5], scratch, &mut v) {
+                    bad!()
+                }
+                out.u64_hex(v.out);
+            }
+            (b"hashrec", 2) => {
+                // the `write` calls core's `Hash` impl of the value makes (independent of the crate)
+                let mut v = RecVis { rec: Rec::new() };
+                if !with_val(toks[1], scratch, &mut v) {
+                    bad!()
+                }
+                if v.rec.overflow {
+                    out.s("overflow");
+                } else if v.rec.ncuts == 0 {
+                    out.s("nowrites");
+                } else {
+                    let mut start = 0;
+                    for i in 0..v.rec.ncuts {
+                        if i > 0 {
+                            out.s("|");
+                        }
+                        out.bytes_hex(&v.rec.buf[start..v.rec.cuts[i]]);
+                        start = v.rec.cuts[i];
+                    }
+                }
+            }
+            (b"hwval", 3) => {
+                // `value.hash(&mut hasher)`: through the provided `Hasher::write_*` methods of the real impl
+                let h = handle!(1);
+                let Some(s) = &mut self.hs[h] else {
+                    out.s("nohandle");
+                    return;
+                };
+                let mut v = IntoVis { h: s, unsupported: false };
+                if !with_val(toks[2], scratch, &mut v) {
+                    bad!()
+                }
+                out.s(if v.unsupported { "unsupported" } else { "ok" });
+            }
+            (b"iowritev", _) if n >= 3 && n <= 6 => {
+                // `io::Write::write_vectored`, repeated until every buffer is consumed (as write_all_vectored does)
+                let h = handle!(1);
+                let Some(s) = &mut self.hs[h] else {
+                    out.s("nohandle");
+                    return;
+                };
+                #[cfg(feature = "std")]
+                {
+                    let nb = n - 2;
+                    let mut lens = [0usize; 4];
+                    let mut offs = [0usize; 4];
+                    let mut pos = 0usize;
+                    for i in 0..nb {
+                        let Some(l) = unhex(toks[2 + i], &mut scratch[pos..]) else { bad!() };
+                        offs[i] = pos;
+                        lens[i] = l;
+                        pos += l;
+                    }
+                    let data: &[u8] = &scratch[..pos];
+                    let mut done = [0usize; 4];
+                    let mut guard = 0;
+                    loop {
+                        let remaining: usize = (0..nb).map(|i| lens[i] - done[i]).sum();
+                        if remaining == 0 {
+                            out.s("ok");
+                            break;
+                        }
+                        guard += 1;
+                        if guard > 64 {
+                            out.s("stuck");
+                            break;
+                        }
+                        let empty: &[u8] = &[];
+                        let mut ios = [std::io::IoSlice::new(empty), std::io::IoSlice::new(empty), std::io::IoSlice::new(empty), std::io::IoSlice::new(empty)];
+                        for i in 0..nb {
+                            ios[i] = std::io::IoSlice::new(&data[offs[i] + done[i]..offs[i] + lens[i]]);
+                        }
+                        let r = each_t!(s, out, x => std::io::Write::write_vectored(x, &ios[..nb]));
+                        match r {
+                            Ok(mut k) => {
+                                if k > remaining {
+                                    out.s("overcount");
+                                    break;
+                                }
+                                if k == 0 {
+                                    out.s("zero");
+                                    break;
+                                }
+                                for i in 0..nb {
+                                    let t = core::cmp::min(k, lens[i] - done[i]);
+                                    done[i] += t;
+                                    k -= t;
+                                }
+                            }
+                            Err(_) => {
+                                out.s("err");
+                                break;
+                            }
+                        }
+                    }
+                }
+                #[cfg(not(feature = "std"))]
+                out.s("unsupported");
+            }
+            (b"writefmt", 3) => {
+                // `write!(hasher, "{}", s)` through `io::Write::write_fmt`
+                let h = handle!(1);
+                let Some(len) = unhex(toks[2], scratch) else { bad!() };
+                let Some(s) = &mut self.hs[h] else {
+                    out.s("nohandle");
+                    return;
+                };
+                #[cfg(feature = "std")]
+                {
+                    let Ok(st) = core::str::from_utf8(&scratch[..len]) else { bad!() };
+                    let r = each_t!(s, out, x => std::io::Write::write_fmt(x, format_args!("{}", st)));
+                    out.s(if r.is_ok() { "ok" } else { "err" });
+                }
+                #[cfg(not(feature = "std"))]
+                out.s("unsupported");
             }
             (b"iocopy", 3) => {
                 let h = handle!(1);
